@@ -3,7 +3,7 @@
    Popen2IO / SocketIO (scripted files and sockets), and of real gateways under
    concurrent senders, judged by the property automaton WireAbs.
 
-   sim events:  [ev |-> "wcall", w, code, chan, len, fill]   writer w is about to send this frame
+   sim events:  [ev |-> "wcall", w, code, chan (decimal text: ids use the full signed 32-bit range, TLC integers are 32-bit), len, fill]
                 [ev |-> "rdec", code, chan, len, fill]        the reader decoded a frame (fill = -1: payload not uniform)
                 [ev |-> "rerr", res]                          from_io raised something that is not EOFError
                 [ev |-> "end", cut]                           reader saw EOF; cut = the stream was cut
